@@ -65,7 +65,7 @@ theorem keepFail_closedH (s3 : BSt) :
     rw [ctxEmpty_fst]
     refine ⟨fun j => ?_, h.2⟩
     rw [th_setTh]; split <;> exact h.1 j
-  dropCtx := fun s i h _ _ => by
+  dropCtx := fun s i h _ _ _ => by
     unfold PA.dropCtx
     refine ⟨fun j => ?_, fun j hj => ?_⟩
     · rw [th_setTh]
